@@ -23,7 +23,7 @@ type c25Config struct {
 func init() {
 	register(&Property{
 		ID:       "C25",
-		Patterns: []string{"./sql/expression"},
+		Patterns: []string{"./sql/expression", "./sql/expression/function", "./sql/expression/function/aggregation"},
 		Explanation: "Unguarded-operation clause of 'integer arithmetic is exact or out-of-range'. Inside the arithmetic kernel of package sql/expression (plus, minus, mult, " +
 			"UnaryMinus.Eval, intDiv, mod) every SSA operation that can lose the exact integer value - + - * on a fixed-width integer type, unary minus, signed division " +
 			"(MinInt / -1), and every conversion to an integer type that cannot hold all values of its source type (narrowing, sign change, float->int) - is decided: it is exact " +
@@ -35,9 +35,14 @@ func init() {
 			"evaluated from, its type operand is sliced back to its alternatives (phi edges, Type()/getReturnType of the same receiver, the cached field and its writers); for every alternative that " +
 			"is an integer type constant of sql/types, EVERY acyclic path selecting it must cross a positive type predicate about X's own type: IsUnsigned/IsYear for an unsigned type, an integer-like " +
 			"predicate for a signed one. `IsUnsigned(lTyp) || IsUnsigned(rTyp)` selects Uint64 on a path that knows nothing about one operand. Sites: IntDiv, Arithmetic (+ - *) decided; Div and Mod " +
-			"coerce to float only; BitOp is excluded (two's-complement wrap is the specified result of bit operations).",
-		NotCovered: "DECIMAL exactness (delegated to apd), float arithmetic and NaN, the sign rules of DIV and %, the decimal-scale bookkeeping in Div.div, the correctness of an accepted two-operand guard (only its shape is recognised), arithmetic done outside the kernel (functions, aggregates); for K3: alternatives of the computation type that are not type constants (the operand's own normalised type, DECIMAL types created by a call) are listed but not decided, whether the predicate set of a path is satisfiable, what Convert does for an integer-like operand (unsigned above MaxInt64 coerced to BIGINT), coercions that do not go through convertValueToType",
-		Technique:  "SSA + one-variable interval domain over dominating branch conditions (interval engine); K3: backward slice of the chosen type to its constant alternatives with per-path predicate sets (acyclic path enumeration over SSA blocks, interprocedural through methods of the same receiver), operand-to-child value tracing",
+			"coerce to float only; BitOp is excluded (two's-complement wrap is the specified result of bit operations). " +
+			"(M1) DECIMAL operations produce new values (destination freshness): apd.Decimal is a mutable object and the engine's DECIMAL values are shared *apd.Decimal pointers (the stored rows of the in-memory table, a Literal's value, an operand used by two operators of one expression). " +
+			"The writers of cockroachdb/apd are derived from its own source (a function writes its parameter d iff its body, transitively, stores through it: Decimal.Neg/Abs/Set*/..., Context.Add/Sub/Mul/Quo/Rem/Quantize/Ceil/Floor/Round/...; a frozen list of names confirmed by reading guards the derivation); " +
+			"module functions that pass their own parameter on to a writer are writers too (whatever the static type of the parameter: plus(lval, rval interface{})) and are decided at their static call sites. Every decimal write - call of a writer, direct field store into a Decimal - in the loaded module must have a destination whose every origin " +
+			"(phi edges, local variables flow-sensitively, type switches/assertions, struct fields, results of summarised callees) is an allocation of the writing function: new(apd.Decimal), &apd.Decimal{}, a local variable, apd.New, a callee that returns only fresh decimals; unexported accumulator fields are read off all module stores to the field. " +
+			"A destination that is the result of Eval/Type.Convert, a parameter of a dynamically dispatched method, a field set from outside, a global, or a struct copy new(*x) of such a decimal (it shares the heap part of a coefficient above 128 bits, which apd updates in place) is a violation: the write changes the stored row / literal / sibling operand.",
+		NotCovered: "DECIMAL exactness (delegated to apd), float arithmetic and NaN, the sign rules of DIV and %, the decimal-scale bookkeeping in Div.div, the correctness of an accepted two-operand guard (only its shape is recognised), arithmetic done outside the kernel (functions, aggregates); for K3: alternatives of the computation type that are not type constants (the operand's own normalised type, DECIMAL types created by a call) are listed but not decided, whether the predicate set of a path is satisfiable, what Convert does for an integer-like operand (unsigned above MaxInt64 coerced to BIGINT), coercions that do not go through convertValueToType; for M1: whether a decimal the function owns later escapes and is written again by someone else (a buffer handing out its accumulator), writes done inside callees whose bodies are not read other than apd's (reflection, encoding), aliases created by storing the address of a local elsewhere, decimals reached through exported fields (treated as not owned), packages outside the loaded patterns in the quick tier (the thorough tier finds the same 21 writes in the whole engine)",
+		Technique:  "SSA + one-variable interval domain over dominating branch conditions (interval engine); K3: backward slice of the chosen type to its constant alternatives with per-path predicate sets (acyclic path enumeration over SSA blocks, interprocedural through methods of the same receiver), operand-to-child value tracing; M1: backward origin analysis over go/ssa (freshness engine: identity leaves fresh/param/global/foreign, flow-sensitive local cells, field-content invariants from the module-wide store index, callee result and write summaries incl. the dependency package's bodies, forwarding closure over the static call graph)",
 		Run: func(c *Ctx) {
 			runC25(c, c25Config{Rel: "sql/expression",
 				Kernel:  []string{"plus", "minus", "mult", "UnaryMinus.Eval", "intDiv", "mod"},
@@ -51,6 +56,11 @@ func init() {
 				floatPred: "IsFloat", evalM: "Eval", typeM: "Type",
 				skip:  map[string]string{"BitOp.convertLeftRight": "bit operations are defined on the 64-bit two's complement pattern: wrapping a negative operand into BIGINT UNSIGNED is their specified result, not a lost value (outside C25's arithmetic operators)"},
 				floor: 8})
+			runC25Mut(c, c25MutCfg{decPath: "github.com/cockroachdb/apd/v3", decType: "Decimal",
+				confirmed: []string{"Decimal.Neg/d", "Decimal.Abs/d", "Decimal.Set/d", "Decimal.SetInt64/d", "Decimal.SetFinite/d", "Decimal.SetFloat64/d", "Decimal.SetString/d",
+					"Context.Add/d", "Context.Sub/d", "Context.Mul/d", "Context.Quo/d", "Context.QuoInteger/d", "Context.Rem/d", "Context.Neg/d", "Context.Abs/d",
+					"Context.Quantize/d", "Context.Round/d", "Context.Ceil/d", "Context.Floor/d", "Context.RoundToIntegralValue/d", "Context.Sqrt/d", "Context.Pow/d"},
+				floor: 18, exc: c25MutExceptions})
 		},
 		Fixture: func(c *Ctx, fx *Prog) {
 			expectFixture(c, fx, "c25: unguarded add, narrowing before negation, negation of MinInt, float->int, MinInt / -1",
@@ -79,9 +89,35 @@ func init() {
 						uintPreds: []string{"IsUnsigned"}, intPreds: []string{"IsSigned", "IsInteger", "IsUnsigned"},
 						floatPred: "IsFloat", evalM: "Eval", typeM: "Type"})
 				})
+			expectFixture(c, fx, "c25-M1: operand negated / ceiled in place, struct copy as destination, helper writing a literal's value, accumulator that stores its operand, global destination, field store on the operand",
+				[]string{
+					"C25-M1:NegInPlace.Eval/Decimal.Neg(dst e.Child.Eval().(*dec.Decimal))",
+					"C25-M1:CeilInPlace.Eval/Context.Ceil(dst e.Child.Eval().(*dec.Decimal))",
+					"C25-M1:truncShallow/Context.Ceil(dst c)",
+					"C25-M1:Lit.Eval/negInto(dst l.val)",
+					"C25-M1:sumBad.Update/Context.Add(dst s.acc)",
+					"C25-M1:intoGlobal/Context.Add(dst zero)",
+					"C25-M1:fieldStore/store .Neg_(dst e.Eval().(*dec.Decimal))",
+				},
+				func(fc *Ctx) {
+					runC25Mut(fc, c25MutCfg{decPath: "vchk/testdata/c25/dec", decType: "Decimal", confirmed: []string{"Decimal.Neg/d", "Decimal.Set/d", "Context.Add/d", "Context.Ceil/d"}})
+				})
 		},
-		FixturePkgs: []string{"./testdata/c25/arith", "./testdata/c25/coerce", "./testdata/c25/tys"},
+		FixturePkgs: []string{"./testdata/c25/arith", "./testdata/c25/coerce", "./testdata/c25/tys", "./testdata/c25/dec", "./testdata/c25/decuse"},
 	})
+}
+
+// c25MutExceptions: destination -> the non-owned origins that are accepted for it, and why (C25-M1).
+// An origin outside the accepted list (e.g. the operand itself stored into the accumulator) is reported.
+var c25MutExceptions = map[string]c25MutExc{
+	"sumBuffer.PerformSum/Context.Add(dst m.sum.(*apd.Decimal))": {
+		origins: []string{
+			"field sumBuffer.sum, which sumBuffer.PerformSum sets to the result of dynamic call Float64.Convert",
+			"field sumBuffer.sum, which sumBuffer.PerformSum sets to the result of dynamic call InternalDecimalType.Convert",
+		},
+		why: "accumulator, not an operand: sumBuffer.sum is an unexported field written only by PerformSum (read off the module's stores to the field); every decimal it stores there is one it allocated (apd.New, DecimalFromFloat64, the previous accumulator); " +
+			"the two remaining stores are results of Type.Convert that the origin walk cannot see through: Float64.Convert yields a float64 (never a decimal) and InternalDecimalType.Convert sits in the `default` arm of a switch over a field that only ever holds float64 or *apd.Decimal (dead arm; for the integer kinds it could see, DecimalType.Convert builds a new decimal). The operand n is only ever the source of the Add",
+	},
 }
 
 // c25Exceptions: operation -> reason. Dead arms are tied to side condition K2.
